@@ -495,6 +495,18 @@ def at_table(rnd):
         # patterns that accept the empty string (what the settings UI stores for a blank field), commands sent without parameters
         return ([["Stop", "", "disable_exclusion"], ["Go", ".*", "enable_exclusion"], ["Halt", r"^\s*$", "disable_exclusion"]],
                 {"enable_exclusion": ["", "", "now"], "disable_exclusion": ["", "", "  "]})
+    if k < 0.92:
+        # the same rule listed twice / two rules of one action matching the same command: every matching entry is applied in turn
+        return ([["ExcludeRegion", r"^\s*(disable|off)(\s|$)", "disable_exclusion"], ["ExcludeRegion", r"^\s*off\b", "disable_exclusion"],
+                 ["ExcludeRegion", r"^\s*(disable|off)(\s|$)", "disable_exclusion"],
+                 ["ExcludeRegion", r"^\s*(enable|on)(\s|$)", "enable_exclusion"], ["ExcludeRegion", r"^\s*on", "enable_exclusion"]],
+                {"enable_exclusion": ["on", "on", "enable", "only"], "disable_exclusion": ["off", "off", "disable", "off now"]})
+    if k < 0.95:
+        # two spellings of one command name are two commands; in the stored (case-insensitively sorted) list their entries interleave
+        return ([["ExcludeRegion", r"^\s*off", "disable_exclusion"], ["EXCLUDEREGION", r"^\s*off", "disable_exclusion"],
+                 ["ExcludeRegion", r"^\s*on", "enable_exclusion"], ["EXCLUDEREGION", r"^\s*on", "enable_exclusion"],
+                 ["excluderegion", None, "disable_exclusion"]],
+                {"enable_exclusion": ["on"], "disable_exclusion": ["off"]})
     return ([["NoExcl", None, "disable_exclusion"], ["DoExcl", None, "enable_exclusion"],
              ["Both", "^a", "disable_exclusion"], ["Both", "^ab", "enable_exclusion"]],
             {"enable_exclusion": ["", "x", "ab"], "disable_exclusion": ["", "y", "a", "ac"]})
@@ -523,6 +535,8 @@ class C14(MotionMonitor):
                 return case
         if rnd.random() < 0.06:
             return self.gen_plugin_case(rnd)
+        if rnd.random() < 0.08:
+            return self.gen_plugin_table_case(rnd)
         name, feats = self.pick_class(rnd)
         settings = self.settings_for(rnd, feats)
         table, params = at_table(rnd)
@@ -562,6 +576,17 @@ class C14(MotionMonitor):
         if tr.exc is not None:
             v.append(dict(kind="exception", idx=tr.exc[0], cmd=tr.exc[1], detail=tr.exc[2], mechanism=None))
         return dict(violations=v, nontrivial=self.nontrivial(tr, case) and not v, stats=stats, sets=sets, sample=sample_of(case, tr))
+
+    def gen_plugin_table_case(self, rnd):
+        """One print through the real plugin with an action table stored in the settings (any of the table shapes above)."""
+        table, params = at_table(rnd)
+        st = dict(g90e=False, at=table, clear=False, shrink=False, enter=None, exit=None)
+        feats = mk(at=True, rel=rnd.random() < 0.3, p_inside=0.5, beds=False, p_at=0.25)
+        if params:
+            feats["at_params"] = params
+        regs, g = gen_program(rnd, feats, st, nsteps=rnd.randint(10, 40))
+        steps = [["event", "PrintStarted"]] + [x for x in g.steps if x[0] in ("g", "at")]
+        return dict(cls="plugin-stored-table", plugin=True, settings=st, regions=regs, steps=steps)
 
     def gen_plugin_case(self, rnd):
         """One print during which a settings save swaps the actions of the configured @-commands (same commands and patterns)."""
